@@ -49,49 +49,39 @@ Section Codec.
     now rewrite !writer_do_id, IH.
   Qed.
 
-  (* the stackless-writer path is safe when the coder writes synchronously: every coding but zstd, and zstd as long
-     as the data stays within one encoder block *)
-  Definition sync_coder (k : coding) (body : bytes) : Prop := async_coder k body = false.
-
-  (* the body of a response after the wrapper: untouched, or coded exactly once with the chosen coding *)
+  (* the body of a response after the wrapper: untouched, or coded exactly once (completely) with the chosen coding *)
   Lemma compress_body_shape k lvl inflight cap sched r :
     let c := compress_body enc k lvl inflight cap sched r in
     (c = unchanged r) \/
     (r_ce r = [] /\ c_ce c = tok k /\ c_vary c = add_vary (r_vary r) strAcceptEncoding /\
-     (c_body c = SOk (WCoded k (enc k lvl (r_body r)) true) \/
-      (r_streamed r = true /\ async_coder k (r_body r) = true /\ c_body c = SOk (WLossy k (enc k lvl (r_body r)))))).
+     c_body c = SOk (WCoded k (enc k lvl (r_body r)) true)).
   Proof.
     unfold compress_body. destruct (r_ce r) eqn:Ece; [|now left].
     destruct (compressible (r_ct r)); cbn [negb]; [|now left].
     destruct (r_streamed r).
     - right. cbn [c_ce c_vary c_body]. repeat split. unfold stream_compress, coder_output.
-      rewrite stream_consumed_concat, writer_do_id. fold (r_body r).
-      destruct (async_coder k (r_body r)); [right; auto|now left].
+      now rewrite stream_consumed_concat, writer_do_id.
     - destruct (Z.of_nat (length (r_body r)) <? minCompressLen)%Z; [now left|].
-      right. cbn [c_ce c_vary c_body]. repeat split. left.
+      right. cbn [c_ce c_vary c_body]. repeat split.
       unfold append_bytes_level, stackless_write, nonblocking_write. now destruct (queue_accepts inflight cap).
   Qed.
 
   (* every body, buffered or streamed: for every queue occupancy and every refusal schedule the response decodes
-     (per the coding it declares) to the handler's body — provided a streamed body is not coded by an asynchronous coder *)
+     (per the coding it declares) to the handler's body *)
   Lemma roundtrip_any_load kd bl ol ae inflight cap sched r :
-    (r_streamed r = true -> forall k, choose kd ae = Some k -> sync_coder k (r_body r)) ->
     exists w, c_body (snd (compress_handler enc kd bl ol ae inflight cap sched r)) = SOk w /\ decode dec w = Some (r_body r).
   Proof.
-    intros Hsync. unfold compress_handler. destruct (choose kd ae) as [k|]; cbn [snd]; [|eexists; split; reflexivity].
-    destruct (compress_body_shape k (level_for kd k bl ol) inflight cap sched r) as [-> | (_ & _ & _ & [H | (Hs & Ha & _)])].
+    unfold compress_handler. destruct (choose kd ae) as [k|]; cbn [snd]; [|eexists; split; reflexivity].
+    destruct (compress_body_shape k (level_for kd k bl ol) inflight cap sched r) as [-> | (_ & _ & _ & H)].
     - eexists; split; reflexivity.
     - eexists. split; [exact H|]. cbn [decode]. now rewrite dec_enc.
-    - exfalso. specialize (Hsync Hs k eq_refl). unfold sync_coder in Hsync. congruence.
   Qed.
 
-  (* Write<Coding>Level to a generic io.Writer: the output decodes to the input whatever the queue does (synchronous coder) *)
+  (* Write<Coding>Level to a generic io.Writer: the output decodes to the input whatever the queue does *)
   Lemma write_generic_roundtrip k lvl p fw fc :
-    sync_coder k p ->
     exists w, write_generic enc k lvl p fw fc = SOk w /\ decode dec w = Some p.
   Proof.
-    intros Hs. unfold write_generic, coder_output. rewrite !writer_do_id. unfold sync_coder in Hs. rewrite Hs.
-    eexists. split; [reflexivity|]. cbn [decode]. now rewrite dec_enc.
+    unfold write_generic, coder_output. rewrite !writer_do_id. eexists. split; [reflexivity|]. cbn [decode]. now rewrite dec_enc.
   Qed.
 
   (* never twice: a response that already declares a Content-Encoding is left alone *)
@@ -107,29 +97,13 @@ Section Codec.
     let c := snd (compress_handler enc kd bl ol ae inflight cap sched r) in
     c = unchanged r \/
     exists k lvl, choose kd ae = Some k /\ r_ce r = [] /\ c_ce c = tok k /\
-      (c_body c = SOk (WCoded k (enc k lvl (r_body r)) true) \/ c_body c = SOk (WLossy k (enc k lvl (r_body r)))).
+      c_body c = SOk (WCoded k (enc k lvl (r_body r)) true).
   Proof.
     unfold compress_handler. destruct (choose kd ae) as [k|] eqn:E; cbn [snd]; [|now left].
     destruct (compress_body_shape k (level_for kd k bl ol) inflight cap sched r) as [H | (H1 & H2 & _ & H3)]; [now left|].
-    right. exists k, (level_for kd k bl ol). repeat split; auto. destruct H3 as [H3 | (_ & _ & H3)]; auto.
+    right. exists k, (level_for kd k bl ol). auto.
   Qed.
 End Codec.
-
-(* the witness of finding zstd-stackless-async-write: a streamed body of more than one zstd block *)
-Definition zstd_witness : resp :=
-  {| r_ce := []; r_ct := []; r_vary := []; r_streamed := true; r_chunks := [repeat 0 (Z.to_nat 131073)] |}.
-Lemma zstd_stream_refuted :
-  forall (enc : coding -> Z -> bytes -> bytes) (dec : coding -> bytes -> bytes),
-    exists w, c_body (snd (compress_handler enc HLevel 6 6 [s2b "zstd"] 0 2048 [] zstd_witness)) = SOk w /\ decode dec w = None.
-Proof.
-  intros enc dec. unfold compress_handler.
-  assert (Hc : choose HLevel [s2b "zstd"] = Some Zstd) by (vm_compute; reflexivity). rewrite Hc. cbn [snd].
-  unfold compress_body. cbn [r_ce zstd_witness r_ct r_streamed r_chunks r_vary].
-  assert (Hcomp : compressible [] = true) by (vm_compute; reflexivity). rewrite Hcomp. cbn [negb c_body].
-  unfold stream_compress, coder_output.
-  assert (Ha : async_coder Zstd (stream_consumed [] 0 [repeat 0 (Z.to_nat 131073)]) = true) by (vm_compute; reflexivity).
-  rewrite Ha. eexists. split; reflexivity.
-Qed.
 
 (* ------------------------------------------------------------------ *)
 (* comma lists *)
